@@ -387,6 +387,10 @@ pub fn honest_swarm(seed: u64) -> Plan {
     let mut r = Rng64::sub(seed, "honest-swarm");
     let small = r.chance(2, 3);
     let mut g = gen_geometry(&mut r, 40, small);
+    // now and then pieces around and above the client's own default piece length (256 KiB)
+    if Rng64::sub(seed, "honest-huge").chance(1, 40) {
+        g = gen_geometry_with(&mut Rng64::sub(seed, "honest-huge-geometry"), 3, false, true);
+    }
     // now and then a torrent with a few hundred tiny pieces (multi-byte bitfields, long end game)
     if r.chance(1, 16) {
         let pl = r.range(8, 48);
@@ -814,7 +818,10 @@ pub fn tiling(seed: u64) -> Plan {
         0..=6 => *r.pick(&[1u64, 16383, 16384, 16385, 32768, 32767, 40000, 49159, 49152, 65536, 20000, 100]),
         _ => r.range(1, 70_000),
     };
-    let n = r.range(1, 4);
+    // now and then pieces around and above the client's own default piece length (256 KiB)
+    let big = Rng64::sub(seed, "tiling-big").chance(1, 30);
+    let piece_len = if big { *Rng64::sub(seed, "tiling-big-len").pick(&[262_144u64, 262_145, 278_529, 524_288]) } else { piece_len };
+    let n = if big { r.range(1, 2) } else { r.range(1, 4) };
     let last = if r.chance(1, 3) { piece_len } else { r.range(1, piece_len) };
     let g = simple_geometry(piece_len, (n - 1) * piece_len + last);
     let n = g.pieces();
